@@ -366,15 +366,17 @@ C07_DIMS = {
     "prev": ["first_locale", "prev_present", "prev_null", "prev_absent", "prev_unreachable"],
     "inh": ["none", "to_default", "to_other", "loop"],
     "balance": ["neither", "only_absent", "only_surplus", "absent<surplus", "absent=surplus", "absent>surplus"],
-    "nloc": ["2", "3", "4+"],
+    "nloc": ["1", "2", "3", "4+"],
     "outcome": ["ok", "err_mismatch", "err_default_null"],
     "build": ["normal", "suppress"],
 }
 
 
 def c07_infeasible(d1, v1, d2, v2):
-    if d1 == "kstate" and d2 == "outcome" and v1.startswith("mism_") and v2 == "ok":
-        return "a group/value mismatch is an error"
+    if d1 == "kstate" and d2 == "outcome" and (v1.startswith("mism_") != (v2 == "err_mismatch")):
+        return "a group/value mismatch is an error; a rejected project shows no diagnostics for its other keys"
+    if d1 == "outcome" and v1 == "err_default_null" and d2 in ("kstate", "balance", "prev", "depth", "pos", "inh"):
+        return "a null in the default locale is rejected before any locale is merged"
     if d1 == "kstate" and d2 == "balance":
         if v1.startswith("absent_") and v2 in ("neither", "only_surplus"):
             return "the key itself is counted at its level"
@@ -396,6 +398,11 @@ def c07_infeasible(d1, v1, d2, v2):
             return "with two locales the only non-default locale is second"
         if d2 == "inh" and v2 == "to_other":
             return "needs a second non-default locale"
+    if d1 == "nloc" and v1 == "1":
+        if d2 in ("kstate", "balance", "prev", "depth", "pos", "inh"):
+            return "no non-default locale"
+        if d2 == "outcome" and v2 == "err_mismatch":
+            return "no non-default locale"
     return None
 
 
@@ -468,6 +475,15 @@ def c07_tags(p, build):
                     "nloc": cap(len(order), 4), "outcome": out, "build": build}
             prevf = p["files"]["%s/%s" % (ns, order[i])] if i > 0 else None
             c07_level(d, p["files"]["%s/%s" % (ns, l)], 1, base, prevf, [], obs)
+    if len(order) == 1 and out == "ok":
+        obs = [{"ns": "none" if nss is None else "only" if len(nss) == 1 else "first", "nloc": "1", "outcome": out, "build": build}]
+    # a project that is rejected shows no diagnostics: only what raises the error counts as exercised
+    if out == "err_mismatch":
+        obs = [o for o in obs if o["kstate"].startswith("mism_")]
+    elif out == "err_default_null":
+        bad_ns = [j for j, ns in enumerate(nss or ["-"]) if has_null(p["files"]["%s/%s" % (ns, dflt)])][0]
+        obs = [{"ns": "none" if nss is None else "only" if len(nss) == 1 else "first" if bad_ns == 0 else "later",
+                "nloc": cap(len(order), 4), "outcome": out, "build": build}]
     return obs
 
 
@@ -483,7 +499,11 @@ def c07_draw(rng, gap):
         else:
             sc["outcome"] = "err_mismatch"
     if sc["outcome"] == "err_mismatch" and not sc["kstate"].startswith("mism_"):
-        sc["extra_mismatch"] = True
+        if "kstate" in (d1, d2):
+            return None
+        sc["kstate"] = rng.choice(["mism_group_for_leaf", "mism_leaf_for_group"])
+    if sc["outcome"] == "ok" and "outcome" not in (d1, d2) and rng.random() < 0.0:
+        pass
     if "pos" in (d1, d2) and "prev" not in (d1, d2):
         sc["prev"] = "first_locale" if sc["pos"] == "second" else rng.choice(C07_DIMS["prev"][1:])
     elif "prev" in (d1, d2):
@@ -511,6 +531,19 @@ def c07_draw(rng, gap):
 
 
 def c07_build(rng, sc):
+    if sc["nloc"] == "1":
+        if sc["outcome"] == "err_mismatch":
+            return None
+        D = rng.choice(mc.LOCALE_POOL)
+        nss1 = {"none": None, "only": [rng.choice(mc.NS_POOL)]}.get(sc["ns"], rng.sample(mc.NS_POOL, 2))
+        bad = len(nss1) - 1 if nss1 and sc["ns"] == "later" else 0
+        fl = {}
+        for j, ns in enumerate(nss1 or ["-"]):
+            t = {"a": ["L", 1 + j], "g": ["G", {"x": ["L", 10 + j]}]}
+            if sc["outcome"] == "err_default_null" and j == bad:
+                t["dn"] = ["N"]
+            fl["%s/%s" % (ns, D)] = ["G", t]
+        return {"default": D, "locales": [D], "inherits": {}, "namespaces": nss1, "files": fl, "roles": [D]}
     nloc = {"2": 2, "3": 3, "4+": rng.choice([4, 5])}[sc["nloc"]]
     if sc["pos"] == "later" and nloc < 3:
         return None
